@@ -11,8 +11,35 @@ pub fn watch(addr: usize, len: usize) { BUSY.with(|b| b.set(true)); WATCH.with(|
 pub fn take_seen() -> Vec<(usize, Vec<u8>)> { BUSY.with(|b| b.set(true)); let v = SEEN.with(|s| std::mem::take(&mut *s.borrow_mut())); BUSY.with(|b| b.set(false)); v }
 pub fn clear() { BUSY.with(|b| b.set(true)); WATCH.with(|w| w.borrow_mut().clear()); SEEN.with(|s| s.borrow_mut().clear()); BUSY.with(|b| b.set(false)); }
 
+// ---- process-wide watch list (no allocation, no locks: usable from any thread inside the allocator) ----
+use std::sync::atomic::{AtomicUsize, Ordering};
+const SLOTS: usize = 32;
+#[allow(clippy::declare_interior_mutable_const)]
+const Z: AtomicUsize = AtomicUsize::new(0);
+static GADDR: [AtomicUsize; SLOTS] = [Z; SLOTS];
+static GRELEASED: AtomicUsize = AtomicUsize::new(0);
+static GDIRTY: AtomicUsize = AtomicUsize::new(0);
+static GACTIVE: AtomicUsize = AtomicUsize::new(0);
+/// watch a block from any thread; its release (by whichever thread) is counted, and counted as dirty when any byte of the block is non-zero
+pub fn gwatch(addr: usize) { for s in GADDR.iter() { if s.compare_exchange(0, addr, Ordering::SeqCst, Ordering::SeqCst).is_ok() { GACTIVE.fetch_add(1, Ordering::SeqCst); return; } } }
+/// (released, dirty) since the last call; clears the counters and any slot still occupied
+pub fn gtake() -> (usize, usize) { for s in GADDR.iter() { if s.swap(0, Ordering::SeqCst) != 0 { GACTIVE.fetch_sub(1, Ordering::SeqCst); } } (GRELEASED.swap(0, Ordering::SeqCst), GDIRTY.swap(0, Ordering::SeqCst)) }
+fn g_on_dealloc(p: *mut u8, size: usize) {
+    if GACTIVE.load(Ordering::Relaxed) == 0 { return; }
+    for s in GADDR.iter() {
+        if s.load(Ordering::SeqCst) == p as usize && s.compare_exchange(p as usize, 0, Ordering::SeqCst, Ordering::SeqCst).is_ok() {
+            GACTIVE.fetch_sub(1, Ordering::SeqCst);
+            let dirty = unsafe { std::slice::from_raw_parts(p, size) }.iter().any(|&b| b != 0);
+            GRELEASED.fetch_add(1, Ordering::SeqCst);
+            if dirty { GDIRTY.fetch_add(1, Ordering::SeqCst); }
+            return;
+        }
+    }
+}
+
 /// called by the allocator before a block is handed back
-pub fn on_dealloc(p: *mut u8, _size: usize) {
+pub fn on_dealloc(p: *mut u8, size: usize) {
+    g_on_dealloc(p, size);
     let busy = BUSY.try_with(|b| b.get()).unwrap_or(true);
     if busy { return; }
     let _ = BUSY.try_with(|b| b.set(true));
@@ -20,7 +47,9 @@ pub fn on_dealloc(p: *mut u8, _size: usize) {
         if let Ok(mut w) = w.try_borrow_mut() {
             if let Some(i) = w.iter().position(|(a, _)| *a == p as usize) {
                 let (a, len) = w.remove(i);
-                let bytes = unsafe { std::slice::from_raw_parts(p, len) }.to_vec();
+                // the WHOLE block that goes back to the allocator, not only the bytes the container calls its length:
+                // secret bytes left in spare capacity are released just the same
+                let bytes = unsafe { std::slice::from_raw_parts(p, size.max(len)) }.to_vec();
                 let _ = SEEN.try_with(|s| if let Ok(mut s) = s.try_borrow_mut() { s.push((a, bytes)); });
             }
         }
